@@ -103,7 +103,7 @@ class Keccak(object):
                 b = Bits(M[needed//8:needed//8+1],size=needed%8)[::-1]
                 M = M[:needed//8]+bytes([b.ival])
         r = self.r
-        br,rr = divmod(r,8)
+        br = (r//8) or 1 # bytes per read (rates below 8 still read one byte)
         P = BytesIO(M)
         # init iterator loop:
         Pi = P.read(br)
@@ -114,7 +114,7 @@ class Keccak(object):
             if len(Pb)>=needed:
                 Pb.size=needed
                 P.read() # consume all stream to exit loop
-            if len(Pb)>=r:
+            while len(Pb)>=r:
                 yield Pb[:r]
                 needed -= r
                 Pb = Pb[r:]
